@@ -1,6 +1,7 @@
 package main
 
 import (
+	"go/constant"
 	"go/token"
 	"go/types"
 	"strings"
@@ -284,4 +285,13 @@ func allocFields(a *ssa.Alloc) (map[string]ssa.Value, *types.Named, bool) {
 		}
 	}
 	return out, n, true
+}
+
+// constantInt64: the int64 value of a types.Const (false when not an integer that fits).
+func constantInt64(c *types.Const) (int64, bool) {
+	v := c.Val()
+	if v == nil || v.Kind() != constant.Int {
+		return 0, false
+	}
+	return constant.Int64Val(v)
 }
